@@ -57,7 +57,10 @@ C12one(c, key, r, tag) == IF key \notin DOMAIN c THEN <<>>
 C12(c) == C12one(c, "rt", c.res, "") \o C12one(c, "rtdf", c.resdf, " (default field)")
 \* conformance of the codec MECH (ExprJson.tla): the decoded tree is what the model says (drift, not a verdict)
 CodecConf(c, key, r) == key \notin DOMAIN c \/ c[key].dec # "ok" \/ c[key].tree2 = EJ!RoundTripped(r.tree, c[key].leaves)
-CodecDrift(c) == IF Prop = "C12" /\ ~(CodecConf(c, "rt", c.res) /\ CodecConf(c, "rtdf", c.resdf)) THEN 1 ELSE 0
+CodecDrift(c) == IF Prop = "C12" /\ ~(CodecConf(c, "rt", c.res) /\ CodecConf(c, "rtdf", c.resdf))
+                 THEN (IF PrintT("MODEL-DRIFT " \o ToJson([q |-> c.q, code |-> (IF "rt" \in DOMAIN c THEN c.rt.tree2 ELSE <<>>),
+                                                            model |-> EJ!RoundTripped(c.res.tree, IF "rt" \in DOMAIN c THEN c.rt.leaves ELSE <<>>)])) THEN 1 ELSE 1)
+                 ELSE 0
 
 Judge(c) == CASE Prop = "C12" -> C12(c) [] Prop = "C01" -> C01(c) [] Prop = "C06" -> C06(c) [] Prop = "C10" -> C10(c) [] Prop = "C11" -> C11(c)
 
